@@ -132,4 +132,12 @@ META.update({
         technique="property-based testing (rapid): round-trip / differential oracle (request received == request sent, response returned == response served) over generated requests, contexts, policy stacks and server scripts",
     ),
 })
+META.update({
+    "C19": dict(
+        text="Property testing for leftovers: generated scenarios (core executions that start async runners, hedge attempts, timeout and delay timers and permit waits, ended by success, failure, timeout, context cancellation or ExecutionResult.Cancel; HTTP calls through a private transport with retried statuses, hedged losers and merged contexts; gRPC interceptor calls with merged contexts; composition scenarios of the C01 generator) are each repeated many times; afterwards, with the caller's contexts still alive and idle connections closed, a goroutine dump is polled for up to 30 s: no goroutine may keep a frame of the module or of an HTTP client connection, and the number of goroutines may not have grown. Sampling, not proof.",
+        design_ref="DESIGN.md section 6, C19",
+        note="Residue without a goroutine (an armed timer without effect, a context registration that is never released) is invisible to this oracle. Scenarios run sequentially within a process so that leftovers are attributable.",
+        technique="property-based testing (rapid): generated scenarios with a runtime goroutine-dump oracle (module / connection frames, growth over repetitions)",
+    ),
+})
 NOT_APPLICABLE = [dict(property_id=p, reason="check not built yet in this session (work in progress; DESIGN.md section 6 describes the planned property-based check)") for p in ALL if p not in META]
